@@ -96,7 +96,8 @@ def fluid_model(E, theta, limits, starts, vols, removed):
     return finish
 
 
-def fam_pipe(E, configs, fault_kinds, pmax=1, unbounded=False, placements=True, infinite=False):
+def fam_pipe(E, configs, fault_kinds, pmax=1, unbounded=False, placements=True, infinite=False,
+             scoped=False):
     n = len(configs[0][1])
     theta, limits = configs[E.pick('config', len(configs))]
     vols = [E.real('v%d' % i, 0, 60) for i in range(n)]
@@ -117,9 +118,16 @@ def fam_pipe(E, configs, fault_kinds, pmax=1, unbounded=False, placements=True, 
             await (time + starts[i]) if i else None
             log(i, 'start')
             if limits[i] is None:
-                await pipe.transfer(vols[i])
+                tr = pipe.transfer(vols[i])
             else:
-                await pipe.transfer(vols[i], throughput=E.const(limits[i]))
+                tr = pipe.transfer(vols[i], throughput=E.const(limits[i]))
+            if scoped and i == 0:
+                # the transfer is a child of a scope of the victim, which waits for it in the
+                # exit of that scope: a fault on the victim must take the transfer off the pipe
+                async with Scope() as inner:
+                    inner.do(tr)
+            else:
+                await tr
             log(i, 'done')
         return run
 
@@ -216,6 +224,17 @@ FAMILIES = [
            reach=['none', 'cancel', 'interrupt', 'close', 'fault-hits-running-transfer',
                   'zero-volume'],
            bounds='2 transfers, 7 configurations, attacker before / after the victim'),
+    Family('scoped', fam_pipe,
+           quick=dict(configs=CONFIGS2[1:3], fault_kinds=ALLF + [Fault.CLOSE_UNTIL], pmax=1,
+                      scoped=True),
+           thorough=dict(configs=CONFIGS2[1:4], fault_kinds=ALLF + [Fault.CLOSE_UNTIL,
+                                                                    Fault.CANCEL_CLOSE],
+                         pmax=2, scoped=True),
+           reach=['none', 'cancel', 'interrupt', 'close', 'close by until',
+                  'fault-hits-running-transfer'],
+           bounds='transfer 0 runs as a child task of a scope opened by the victim, which waits '
+                  'in the exit of that scope when the fault (cancel / interrupt / close / close '
+                  'by an until-scope) strikes'),
     Family('three', fam_pipe,
            quick=dict(configs=CONFIGS3[:2], fault_kinds=[Fault.NONE]),
            thorough=dict(configs=CONFIGS3[:2], fault_kinds=[Fault.NONE, Fault.CANCEL],
